@@ -3,6 +3,7 @@ import TornadoModel.C02.Lemmas
 import TornadoModel.C02.Framing
 import TornadoModel.C02.Final
 import TornadoModel.C02.Writes
+import TornadoModel.C02.Reject
 import TornadoModel.C02.Rle
 namespace TornadoModel.C02
 open TornadoModel.C02.Spec
@@ -47,41 +48,69 @@ theorem undelimited_closes_at_finish (rq : Req) (code : Nat) (h : HMap)
     | cons x xs ih => intro c0 h0; exact ih _ (by rw [(cWrite_keeps c0 x).1]; exact h0)
   exact cFinish_closes c' (this chunks c hdis)
 
-/-- **response_wellframed** as first stated (no side condition on header *values* or on the abstract request
-    parameters).  False for the model — see `response_wellframed_refuted`; the true statement is
-    `response_wellframed_partial` / `response_wellframed_exact`. -/
-def response_wellframed_goal : Prop :=
-  ∀ (rq : Req) (prog : List Op),
-    (∀ op ∈ prog, match op with
-      | .setHeader n _ | .addHeader n _ | .clearHeader n => C06.isToken (C06.normalize n) = true
-      | .setStatus c => 100 ≤ c ∧ c ≤ 999
-      | _ => True) →
-    let s := run rq prog
-    match clientParse (rq.method == .head) (wire s.conn) s.conn.closed with
-    | .ok (_, rest) => rest = []
-    | .incomplete => s.conn.closed = true
-    | .malformed => False
+/-- **the repaired defect** (fix 28dd4cc; formerly `response_wellframed_refuted`): while the headers are unwritten,
+    `flush()` — called by the handler or from inside `finish()` — with a Content-Length in the header map that
+    `parse_int` rejects raises before anything is changed: `_headers_written` stays false (so the error path can
+    still send a complete error response), the write buffer and the connection are untouched.  Before the fix
+    the ValueError came out of `write_headers` *after* `_headers_written` was set: the error path's `finish()`
+    wrote nothing and the keep-alive connection stayed open with an empty wire. -/
+theorem flush_rejects_invalid_content_length (rq : Req) (s : St) (hw : s.headersWritten = false)
+    (hv : clValid s.hdrs = false) : hFlush rq s = (s, true) := hFlush_reject rq s hw hv
 
-/-- witness: `set_header("Content-Length", "a")` on a keep-alive GET.  `parse_int` raises inside
-    `write_headers` after `_headers_written` was set, the error path's `finish()` then writes nothing, and the
-    connection stays open: the client reads nothing and is not told the response is over. -/
-theorem response_wellframed_refuted : ¬ response_wellframed_goal := by
-  intro h
-  have h1 := h { method := .get, v11 := true, conn := .absent } [.setHeader nCL [97]]
-    (by intro op hop; simp only [List.mem_singleton] at hop; subst hop; decide)
-  have e1 : clientParse ((({ method := .get, v11 := true, conn := .absent } : Req).method) == Method.head)
-      (wire (run { method := .get, v11 := true, conn := .absent } [.setHeader nCL [97]]).conn)
-      (run { method := .get, v11 := true, conn := .absent } [.setHeader nCL [97]]).conn.closed = .incomplete := by
-    decide
-  have e2 : (run { method := .get, v11 := true, conn := .absent } [.setHeader nCL [97]]).conn.closed = false := by
-    decide
-  simp only [e1] at h1
-  rw [e2] at h1
-  cases h1
+/-- what the check accepts: no Content-Length at all, or exactly one value that is a non-empty run of ASCII
+    digits — i.e. it rejects "", "a", "-1", "+3", " 3", "3,3" and any Content-Length given twice -/
+theorem content_length_check_iff (h : HMap) :
+    clValid h = true ↔ (C06.dget nCL h = none ∨ ∃ v, C06.dget nCL h = some [v] ∧ v ≠ [] ∧ v.all isDigit = true) :=
+  clValid_iff h
+
+/-- … and a flush that passes the check never hits `parse_int`'s ValueError inside `write_headers`: that branch
+    of the connection model is dead code behind `hFlush` (every raise of `write_headers` on a fresh connection is
+    the over-long first chunk, which closes the stream) -/
+theorem accepted_flush_raises_only_closed (rq : Req) (s : St) (w : WF rq s)
+    (hv : s.headersWritten = false → clValid s.hdrs = true) :
+    (hFlush rq s).1.headersWritten = true ∧ ((hFlush rq s).2 = true → (hFlush rq s).1.conn.closed = true) := by
+  have hc : s.headersWritten = true ∨ clValid s.hdrs = true := by
+    cases h1 : s.headersWritten with
+    | true => exact Or.inl rfl
+    | false => exact Or.inr (hv h1)
+  rw [hFlush_core rq s hc]
+  exact (hFlushCore_spec rq s w hv).2
+
+/-- **the old witness, for every invalid value and request shape**: a handler that only calls
+    `set_header("Content-Length", v)` with `v` not a decimal number gets exactly one complete response — the 500
+    error page — and nothing else on the wire (non-HEAD requests without an If-None-Match hit; HEAD is covered by
+    `response_wellframed_exact`/`nobody_wire_is_head`) -/
+theorem invalid_content_length_error_page (rq : Req) (hrq : reqOK rq = true) (hm : rq.method ≠ Method.head)
+    (hinm : rq.inmMatch = false) (v : C06.Str) (hv : validValue v = true) (hbad : parseDec v = none) :
+    ∃ hs d, clientParse (rq.method == .head) (wire (run rq [.setHeader nCL v]).conn)
+        (run rq [.setHeader nCL v]).conn.closed
+      = .ok (⟨500, reason 500, hs, errorPage 500, d⟩, []) :=
+  run_invalid_cl_error_page rq hrq hm hinm v hv hbad
+
+/-! the former refutation witness `GET HTTP/1.1` keep-alive, `[set_header("Content-Length","a")]` (and its
+    negative / multi-valued / HTTP/1.0 keep-alive variants): now a complete 500 response on an open connection -/
+set_option maxRecDepth 4096 in
+example : (run { method := .get, v11 := true, conn := .absent } [.setHeader nCL [97]]).conn.closed = false
+    ∧ ((clientParse false (wire (run { method := .get, v11 := true, conn := .absent } [.setHeader nCL [97]]).conn) false
+        matches .ok (⟨500, _, _, _, .contentLength⟩, [])) = true) := by decide
+set_option maxRecDepth 4096 in
+example : ((clientParse false (wire (run { method := .get, v11 := false, conn := .keepAlive }
+      [.setHeader nCL [45, 49], .write [97], .flush, .write [98]]).conn) false
+        matches .ok (⟨500, _, _, _, .contentLength⟩, [])) = true) := by decide
+set_option maxRecDepth 4096 in
+example : ((clientParse false (wire (run { method := .post, v11 := true, conn := .absent }
+      [.addHeader nCL [51], .addHeader nCL [51], .finish (some [97, 98, 99])]).conn) false
+        matches .ok (⟨500, _, _, _, .contentLength⟩, [])) = true) := by decide
+-- a single added value, or a set one with leading zeros, is accepted
+set_option maxRecDepth 4096 in
+example : ((clientParse false (wire (run { method := .post, v11 := true, conn := .absent }
+      [.addHeader nCL [48, 51], .finish (some [97, 98, 99])]).conn) false
+        matches .ok (⟨200, _, _, [97, 98, 99], .contentLength⟩, [])) = true) := by decide
 
 /-- **response_wellframed_exact** (principal theorem): for every request shape and every handler program whose
     ops satisfy the decidable side condition `opOK` (three-digit statuses, token names, no handler-set
-    `Transfer-Encoding`, a handler-set `Content-Length` is one decimal number) and whose abstract
+    `Transfer-Encoding`; header *values* are unrestricted — a handler-set `Content-Length` may be any text, set
+    or added any number of times) and whose abstract
     `Server`/`Date`/`Etag` values are valid header values (`reqOK`), the strict client applied to the bytes the
     model emits (with `eof` = the stream's closed flag)
 
@@ -107,9 +136,12 @@ theorem response_wellframed_exact (rq : Req) (prog : List Op) (hrq : reqOK rq = 
   · exact Or.inl a
   · exact Or.inr ⟨code, hs, h1, h2⟩
 
-/-- **response_wellframed_partial**: the statement of `response_wellframed_goal` under the side conditions
-    `reqOK` / `opOK`. -/
-theorem response_wellframed_partial (rq : Req) (prog : List Op) (hrq : reqOK rq = true)
+/-- **response_wellframed** (the statement as first set as the goal, now at full strength: `opOK` no longer
+    restricts header values): the strict client either reads a response with nothing left over, or sees a
+    truncated message on a *closed* stream; it never rejects the bytes and is never left waiting on an open
+    connection.  (Until fix 28dd4cc this held only for handlers whose Content-Length was one decimal number —
+    `response_wellframed_partial` — and the unrestricted statement was refuted by `set_header("Content-Length","a")`.) -/
+theorem response_wellframed (rq : Req) (prog : List Op) (hrq : reqOK rq = true)
     (hops : ∀ op ∈ prog, opOK op = true) :
     let s := run rq prog
     match clientParse (rq.method == .head) (wire s.conn) s.conn.closed with
@@ -159,7 +191,8 @@ example : bodyOf [Op.write [97], .setStatus 404, .flush, .write [98], .finish (s
 
 /-! non-vacuity of the side conditions and of each outcome of `response_wellframed_exact` -/
 example : reqOK { method := .get, v11 := true, conn := .absent } = true
-    ∧ ∀ op ∈ [Op.setStatus 404, .setHeader nCL [51], .addHeader nCT [97], .write [97, 98, 99], .flush, .finish none],
+    ∧ ∀ op ∈ [Op.setStatus 404, .setHeader nCL [51], .addHeader nCT [97], .write [97, 98, 99], .flush, .finish none,
+        .setHeader nCL [97], .setHeader nCL [], .addHeader nCL [45, 49], .addHeader nCL [51]],
         opOK op = true := by decide
 -- chunked, Content-Length, close-delimited and body-less responses all occur
 example : delimOf { method := .get, v11 := true, conn := .absent }
